@@ -3,6 +3,7 @@ package main
 import (
 	"fmt"
 	"net/url"
+	"regexp"
 	"sort"
 	"strings"
 	"sync"
@@ -371,6 +372,27 @@ func nearOrigins(entries []string) []hv {
 	return out
 }
 
+// appMethodsB: request methods an application defines on top of fiber's default ones (fiber.Config.RequestMethods):
+// two WebDAV verbs and a custom one. None of them is GET, HEAD, OPTIONS or TRACE, so all of them are unsafe.
+var appMethodsB = []string{"PROPPATCH", "MKCOL", "PURGE"}
+
+// productMethodsB: the methods of the product's requests on the apps with application-defined methods.
+func productMethodsB() []string { return append(append([]string(nil), appMethodsB...), "PUT") }
+
+func safeMethodB(m string) bool { return m == "GET" || m == "HEAD" || m == "OPTIONS" || m == "TRACE" }
+
+// methodClassB names a method in signatures: the application's own verbs share one name.
+func methodClassB(m string) string {
+	for _, a := range appMethodsB {
+		if a == m {
+			return "application-defined"
+		}
+	}
+	return m
+}
+
+var coarsenB = regexp.MustCompile(` (class|wildcard-entry-configured|origin-decided-by)=\S+`)
+
 // token states of the "token state x origin" dimension: every Origin/Referer combination that lets a request
 // with a live token through is repeated with these; none of them may reach the handler.
 var badTokensB = []string{"none", "never-issued", "cookie-mismatch", "header-only", "deleted"}
@@ -383,12 +405,37 @@ func runB(r *core.Run, col *collector, samples *[]any) map[string]any {
 	if thorough {
 		hosts = append(hosts, "EXAMPLE.com")
 	}
-	type unit struct{ ti, mi, hi int }
+	// method: the unsafe method of the product's requests; extra: the application defines request methods of
+	// its own (fiber.Config.RequestMethods = fiber.DefaultMethods + appMethodsB)
+	type unit struct {
+		ti, mi, hi int
+		method     string
+		extra      bool
+	}
 	var units []unit
 	for ti := range trustsB {
 		for mi := range modesB {
 			for hi := range hosts {
-				units = append(units, unit{ti, mi, hi})
+				units = append(units, unit{ti, mi, hi, "POST", false})
+			}
+		}
+	}
+	nDefaultUnits := len(units)
+	// application-defined request methods: the whole product again (canonical TrustedOrigins configurations, all
+	// scheme modes, the first Host values) on an app whose RequestMethods are the default ones plus appMethodsB, with
+	// each of the application's own verbs - and a standard unsafe method other than POST - as the requests' method
+	{
+		nh := 1
+		if thorough {
+			nh = 2
+		}
+		for _, m := range productMethodsB() {
+			for ti := 0; ti < nCanonicalTrusts; ti++ {
+				for mi := range modesB {
+					for hi := 0; hi < nh; hi++ {
+						units = append(units, unit{ti, mi, hi, m, true})
+					}
+				}
 			}
 		}
 	}
@@ -403,9 +450,20 @@ func runB(r *core.Run, col *collector, samples *[]any) map[string]any {
 			entrySfx = " entry=" + sp
 		}
 		wildCfg := strings.Contains(tr.Name, "wildcard")
+		// units of the application-defined-methods dimension qualify their signatures; the fold below drops the
+		// qualifier when the default units (POST on a default app) show the same signature
+		appDesc := "fiber.DefaultMethods"
+		if u.extra {
+			entrySfx = " method=" + methodClassB(u.method)
+			appDesc = "fiber.DefaultMethods + " + strings.Join(appMethodsB, ", ")
+		}
 		reached := false
 		lastErr := ""
-		app := fiber.New(fiber.Config{TrustProxy: true, TrustProxyConfig: fiber.TrustProxyConfig{Proxies: []string{"10.0.0.1"}}})
+		appCfg := fiber.Config{TrustProxy: true, TrustProxyConfig: fiber.TrustProxyConfig{Proxies: []string{"10.0.0.1"}}}
+		if u.extra {
+			appCfg.RequestMethods = append(append([]string(nil), fiber.DefaultMethods...), appMethodsB...)
+		}
+		app := fiber.New(appCfg)
 		if tr.Name == "none:no-config" {
 			app.Use(csrf.New()) // no Config at all: ConfigDefault as it stands (default error handler: lastErr stays empty)
 		} else {
@@ -530,12 +588,12 @@ func runB(r *core.Run, col *collector, samples *[]any) map[string]any {
 			}
 			for ri, rv := range refs {
 				rval := expand(rv.Val, mode.Scheme, host)
-				send("POST", oval, rval, "valid")
+				send(u.method, oval, rval, "valid")
 				l.Add("B.evaluations", 1)
 				https := mode.Scheme == "https"
 				oAllowed := refAllowed(originOf(oval), own, tr.Origins)
 				rAllowed := refAllowed(originOf(rval), own, tr.Origins)
-				cs := map[string]any{"harness": "B", "scheme_mode": mode.Name, "tls": mode.TLS, "peer": mode.Peer, "x_forwarded_proto": mode.XFP,
+				cs := map[string]any{"harness": "B", "method": u.method, "app_request_methods": appDesc, "scheme_mode": mode.Name, "tls": mode.TLS, "peer": mode.Peer, "x_forwarded_proto": mode.XFP,
 					"host": host, "origin": oval, "origin_class": ov.Class, "referer": rval, "referer_class": rv.Class,
 					"trusted_origins": tr.Origins, "token": "valid (issued by a prior GET, sent as X-Csrf-Token and csrf_ cookie)"}
 				ord := [4]int{0, ui, oi, ri * 8}
@@ -595,14 +653,14 @@ func runB(r *core.Run, col *collector, samples *[]any) map[string]any {
 				// request through that has no live token (the statement's conditions are a conjunction)
 				if validReached {
 					for k, state := range badTokensB {
-						send("POST", oval, rval, state)
+						send(u.method, oval, rval, state)
 						l.Add("B.evaluations", 1)
 						l.Add("B.badtoken_evaluations", 1)
 						if !reached {
 							l.Add("B.badtoken_rejected", 1)
 							continue
 						}
-						cs2 := map[string]any{"harness": "B", "scheme_mode": mode.Name, "tls": mode.TLS, "peer": mode.Peer, "x_forwarded_proto": mode.XFP,
+						cs2 := map[string]any{"harness": "B", "method": u.method, "app_request_methods": appDesc, "scheme_mode": mode.Name, "tls": mode.TLS, "peer": mode.Peer, "x_forwarded_proto": mode.XFP,
 							"host": host, "origin": oval, "origin_class": ov.Class, "referer": rval, "referer_class": rv.Class, "trusted_origins": tr.Origins,
 							"token": map[string]string{"none": "no token, no cookie", "never-issued": "X-Csrf-Token and csrf_ cookie carry a never issued value of a token's length",
 								"cookie-mismatch": "X-Csrf-Token = a live token, csrf_ cookie = another live token", "header-only": "X-Csrf-Token = a live token, no cookie",
@@ -617,8 +675,9 @@ func runB(r *core.Run, col *collector, samples *[]any) map[string]any {
 		}
 		// method sweep: every safe method passes and leaves a cookie whatever the Origin; every other
 		// method is protected (no token => rejected; valid token from a foreign origin => rejected)
-		for mi2, method := range []string{"GET", "HEAD", "OPTIONS", "TRACE", "POST", "PUT", "PATCH", "DELETE", "CONNECT"} {
-			safe := mi2 < 4
+		// (on a default app the application-defined verbs are unknown methods: fiber answers 501 itself)
+		for mi2, method := range append([]string{"GET", "HEAD", "OPTIONS", "TRACE", "POST", "PUT", "PATCH", "DELETE", "CONNECT"}, appMethodsB...) {
+			safe := safeMethodB(method)
 			for vi, variant := range []string{"no-token", "valid-token+evil-origin", "valid-token+null-origin+evil-referer", "no-token+same-origin", "never-issued-token+same-origin"} {
 				switch variant {
 				case "no-token":
@@ -636,7 +695,10 @@ func runB(r *core.Run, col *collector, samples *[]any) map[string]any {
 				var sc fasthttp.Cookie
 				sc.SetKey("csrf_")
 				hasCk := fctx.Response.Header.Cookie(&sc) && len(sc.Value()) > 0
-				cs := map[string]any{"harness": "B", "method": method, "variant": variant, "scheme_mode": mode.Name, "host": host, "trusted_origins": tr.Origins}
+				if !safe && reached {
+					l.Add("B.method_sweep_unsafe_reached", 1)
+				}
+				cs := map[string]any{"harness": "B", "method": method, "app_request_methods": appDesc, "variant": variant, "scheme_mode": mode.Name, "host": host, "trusted_origins": tr.Origins}
 				ord := [4]int{0, ui, 100000 + mi2, vi}
 				l.Outcome(fmt.Sprintf("B method-sweep safe=%v %s reached=%v cookie=%v", safe, variant, reached, hasCk))
 				switch {
@@ -645,7 +707,7 @@ func runB(r *core.Run, col *collector, samples *[]any) map[string]any {
 				case safe && !hasCk:
 					bcol.add(ord, "B safe-method-left-no-cookie method="+method, "a safe-method request left no CSRF cookie", cs, map[string]any{"reached": true}, "a valid token cookie")
 				case !safe && reached && (variant != "valid-token+null-origin+evil-referer" || mode.Scheme == "https"):
-					bcol.add(ord, "B unsafe-method-unprotected method="+method+" variant="+variant, "an unsafe-method request without a token / from a foreign origin reached the handler", cs, map[string]any{"reached": true}, "rejected")
+					bcol.add(ord, "B unsafe-method-unprotected method="+methodClassB(method)+" variant="+variant, "an unsafe-method request without a token / from a foreign origin reached the handler", cs, map[string]any{"reached": true}, "rejected")
 				case !safe && reached:
 					l.Add("unspecified_skipped", 1) // http + Origin: null: see assumptions
 				}
@@ -653,9 +715,15 @@ func runB(r *core.Run, col *collector, samples *[]any) map[string]any {
 		}
 		// control: the token must still be good, otherwise rejections above were not about the origin; the
 		// deleted token must still be dead
-		send("POST", mode.Scheme+"://"+host, "", "valid")
+		send(u.method, mode.Scheme+"://"+host, "", "valid")
 		if !reached && host == strings.ToLower(host) {
-			core.Fatal("B: control request (same origin, valid token) was rejected: %s (mode %s host %s)", lastErr, mode.Name, host)
+			core.Fatal("B: control request (%s, same origin, valid token) was rejected: %s status %d (mode %s host %s)", u.method, lastErr, fctx.Response.StatusCode(), mode.Name, host)
+		}
+		if u.extra {
+			l.Add("B.appmethods.units", 1)
+			if methodClassB(u.method) == "application-defined" && reached {
+				l.Add("B.appmethods.own_verb_with_live_token_reached", 1)
+			}
 		}
 	})
 	// fold: a violation seen only under a non-canonical spelling keeps ` entry=<spelling>`; one that a
@@ -674,6 +742,30 @@ func runB(r *core.Run, col *collector, samples *[]any) map[string]any {
 				}
 			}
 		}
+		// application-defined methods: a violation that POST on a default app shows too is that violation; one seen
+		// only with another method is about the method, not about the Origin class: one signature per rule and method
+		for _, sg := range sigs {
+			i := strings.Index(sg, " method=")
+			if i == -1 || strings.HasPrefix(sg, "B unsafe-method-unprotected") || strings.HasPrefix(sg, "B safe-method") {
+				continue
+			}
+			v := bcol.m[sg]
+			delete(bcol.m, sg)
+			target := sg[:i]
+			if _, ok := bcol.m[target]; !ok {
+				target = coarsenB.ReplaceAllString(sg[:i], "") + " only-with" + sg[i:]
+			}
+			if t, ok := bcol.m[target]; ok {
+				t.count += v.count
+				if less4(v.ord, t.ord) {
+					t.ord, t.v = v.ord, v.v
+					t.v.Signature = target
+				}
+			} else {
+				v.v.Signature = target
+				bcol.m[target] = v
+			}
+		}
 		col.mu.Lock()
 		if col.m == nil {
 			col.m = map[string]*cviol{}
@@ -685,9 +777,11 @@ func runB(r *core.Run, col *collector, samples *[]any) map[string]any {
 	}
 	*samples = append(*samples, map[string]any{"harness": "B", "origin_alphabet_fixed": len(baseOrigins), "referer_alphabet_fixed": len(baseReferers), "origin_alphabet_max_with_entry_neighbours": maxO, "referer_alphabet_max_with_entry_neighbours": maxR})
 	return map[string]any{
-		"rule": fmt.Sprintf("harness B: %d TrustedOrigins configs (4 canonical + %d spellings of the entries) x %d scheme modes (http, https by TLS, https by trusted X-Forwarded-Proto, http with untrusted X-Forwarded-Proto) x %d Host values x Origin values (%d fixed + the neighbours derived from the configured entries, at most %d) x Referer values (%d fixed; with Origin absent or null also the entries' neighbours, at most %d), each POST carrying a valid token+cookie obtained by a prior GET; a case is non-trivial when the statement constrains it (usable Origin present, or https with Referer present and no usable Origin); a reached handler is compared with an RFC 6454 origin predicate; every combination that lets the live token through is repeated with %d token states without a live token (%v), none of which may reach the handler",
+		"rule": fmt.Sprintf("harness B: %d TrustedOrigins configs (4 canonical + %d spellings of the entries) x %d scheme modes (http, https by TLS, https by trusted X-Forwarded-Proto, http with untrusted X-Forwarded-Proto) x %d Host values x Origin values (%d fixed + the neighbours derived from the configured entries, at most %d) x Referer values (%d fixed; with Origin absent or null also the entries' neighbours, at most %d), each POST carrying a valid token+cookie obtained by a prior GET; a case is non-trivial when the statement constrains it (usable Origin present, or https with Referer present and no usable Origin); a reached handler is compared with an RFC 6454 origin predicate; every combination that lets the live token through is repeated with %d token states without a live token (%v), none of which may reach the handler; application-defined request methods: the same product (canonical TrustedOrigins configurations, all scheme modes, %d Host value(s)) on an app whose fiber.Config.RequestMethods = fiber.DefaultMethods + %v with each of %v as the requests' method (%d further units next to the %d POST units on default apps), and the method sweep (safe methods pass and leave a cookie; every other method is rejected without a token, with a never issued token and with a live token from a foreign origin) includes the application's verbs on every app",
+			(len(units)-nDefaultUnits)/(nCanonicalTrusts*len(modesB)*len(productMethodsB())), appMethodsB, productMethodsB(), len(units)-nDefaultUnits, nDefaultUnits,
 			len(trustsB), len(trustsB)-nCanonicalTrusts, len(modesB), len(hosts), len(baseOrigins), maxO, len(baseReferers), maxR, len(badTokensB), badTokensB),
 		"bounds": map[string]any{"trusted_configs": len(trustsB), "trusted_entry_spellings": len(trustsB) - nCanonicalTrusts, "scheme_modes": len(modesB), "hosts": len(hosts), "origins_fixed": len(baseOrigins), "referers_fixed": len(baseReferers),
-			"origins_max": maxO, "referers_max": maxR, "token_states_without_live_token": badTokensB},
+			"origins_max": maxO, "referers_max": maxR, "token_states_without_live_token": badTokensB,
+			"application_defined_methods": appMethodsB, "product_methods_on_apps_with_own_methods": productMethodsB(), "units_default_app_post": nDefaultUnits, "units_app_defined_methods": len(units) - nDefaultUnits},
 	}
 }
